@@ -470,5 +470,26 @@ def r9_reader_tries_every_directory(chk):
                  keep=lambda o: 'variants' in o.key or 'walks' in o.key, floor=1)
 
 
+
+def r10_first_source_holding_a_regular_file(chk):
+    """shared with C14.R1 / R10: the first source that holds the module supplies it - a directory named like a module
+    does not hold it"""
+    from rules.C14 import r1_file_reader, r10_guard_polarity
+    common.reuse(chk, r1_file_reader, ('C14.R1',), 'C08.R10',
+                 'FileReader.getData takes a candidate only when it is an existing regular file (C14.R1): otherwise a '
+                 'directory named like a module raises instead of letting the search go on, and a later source (or '
+                 'nobody) supplies the module', keep=lambda o: 'isfile' in o.key or 'exists' in o.key, floor=1)
+
+
+
+def r11_every_directory_of_a_source_is_searched(chk):
+    """shared with C14.R5: what a source holds includes what lies below a linked sub-directory"""
+    from rules.C14 import r5_recursion
+    common.reuse(chk, r5_recursion, ('C14.R5',), 'C08.R11',
+                 'FileReader.getSubdirs enters every entry that is a directory, under no further condition (C14.R5): '
+                 'a module below a skipped directory is supplied by a later source, or reported missing and its imports '
+                 'never followed', keep=lambda o: 'every-sub-directory' in o.key or 'recursion' in o.key, floor=1)
+
+
 RULES = [r1_worklist_growth, r2_seen_set, r3_ordering, r4_first_hit, r5_no_mutation_while_iterating,
-         r6_argument_agreement, t1_typestate, r7_every_component_is_asked, r8_generators_start_clean, r9_reader_tries_every_directory]
+         r6_argument_agreement, t1_typestate, r7_every_component_is_asked, r8_generators_start_clean, r9_reader_tries_every_directory, r10_first_source_holding_a_regular_file, r11_every_directory_of_a_source_is_searched]
